@@ -22,6 +22,47 @@ type Triple struct {
 	A *ref.V `json:"a"`
 	B *ref.V `json:"b"`
 	C *ref.V `json:"c"`
+	// Nil[i]: value i is built with nil payloads wherever its blob / array payloads are empty (NewBlobValue(nil),
+	// NewIntArray(nil) ...), at any depth: "nil versus empty payloads"
+	Nil [3]bool `json:"nil,omitempty"`
+}
+
+// nilEmpty replaces every empty blob / array payload inside g by a nil one.
+func nilEmpty(g value.Value) {
+	switch x := g.(type) {
+	case *value.BlobValue:
+		if len(x.Val) == 0 {
+			x.Val = nil
+		}
+	case *value.IntArray:
+		if len(x.Val) == 0 {
+			x.Val = nil
+		}
+	case *value.LongArray:
+		if len(x.Val) == 0 {
+			x.Val = nil
+		}
+	case *value.FloatArray:
+		if len(x.Val) == 0 {
+			x.Val = nil
+		}
+	case *value.TextArray:
+		if len(x.Val) == 0 {
+			x.Val = nil
+		}
+	case *value.ListValue:
+		for i := 0; i < x.Size(); i++ {
+			nilEmpty(x.Get(i))
+		}
+	case *value.MapValue:
+		for en := x.Keys(); en.HasMoreElements(); {
+			nilEmpty(x.Get(en.NextString()))
+		}
+	case *value.IntMapValue:
+		for en := x.Keys(); en.HasMoreElements(); {
+			nilEmpty(x.Get(en.NextInt()))
+		}
+	}
 }
 
 var opts = gval.Opts{MaxDepth: 3, MaxWidth: 4, NoNaN: true}
@@ -283,6 +324,11 @@ func run(c Triple) *pbt.Result {
 	vs := []*ref.V{c.A, c.B, c.C}
 	gs := [3]value.Value{gval.ToGolib(c.A), gval.ToGolib(c.B), gval.ToGolib(c.C)}
 	copies := [3]value.Value{gval.ToGolib(ref.Clone(c.A)), gval.ToGolib(ref.Clone(c.B)), gval.ToGolib(ref.Clone(c.C))}
+	for i := range gs {
+		if c.Nil[i] {
+			nilEmpty(gs[i]) // the copy keeps its empty, non-nil payloads: the two are the same value
+		}
+	}
 	r, err := laws(gs, [3]string{"a", "b", "c"}, copies)
 	if err != nil {
 		return pbt.Fail("%v", err)
@@ -316,8 +362,8 @@ func run(c Triple) *pbt.Result {
 }
 
 var specLaws = pbt.Register(pbt.Spec[Triple]{
-	Prop: "C20", Name: "equality-comparison-laws",
-	Rule:  "triples (a, b, c) of values: a drawn over all 20 types (NaN excluded), b and c derived from a / b by cloning, one or two local mutations (scalar changed, summary count changed, entries reordered, key replaced, values exchanged, element retyped, entry added), an independent value of the same type, or any value; all 9 ordered pairs evaluated; oracle = no panic, reflexive (also vs a copy and vs decode(encode)), symmetric, transitive Equals; sign-reversing and transitive CompareTo; zero iff equal for scalars; mixed types ordered by type code; non-trivial = the triple contains a mixed-type pair or two same-type containers of equal non-zero size; distinct by the three encodings",
+	Prop: "C20", Name: "equality-comparison-laws", Parallel: 8,
+	Rule:  "triples (a, b, c) of values: a drawn over all 20 types (NaN excluded), b and c derived from a / b by cloning, one or two local mutations (scalar changed, summary count changed, entries reordered, key replaced, values exchanged, element retyped, entry added), an independent value of the same type, or any value; in a quarter of the triples some of the three are built with nil instead of empty blob / array payloads; all 9 ordered pairs evaluated; oracle = no panic, reflexive (also vs a copy and vs decode(encode)), symmetric, transitive Equals; sign-reversing and transitive CompareTo; zero iff equal for scalars; mixed types ordered by type code; non-trivial = the triple contains a mixed-type pair or two same-type containers of equal non-zero size; distinct by the three encodings",
 	Quick: 20000, Thorough: 2000000,
 	Draw: func(t *rapid.T) Triple {
 		a := gval.Value(opts).Draw(t, "a")
@@ -326,7 +372,13 @@ var specLaws = pbt.Register(pbt.Spec[Triple]{
 		if rapid.Bool().Draw(t, "cfromA") {
 			base = a
 		}
-		return Triple{A: a, B: b, C: drawRelated(t, base, "ckind")}
+		tr := Triple{A: a, B: b, C: drawRelated(t, base, "ckind")}
+		if rapid.IntRange(0, 3).Draw(t, "nilpayloads") == 0 {
+			for i := range tr.Nil {
+				tr.Nil[i] = rapid.Bool().Draw(t, "nil")
+			}
+		}
+		return tr
 	},
 	Run: run,
 })
